@@ -148,7 +148,11 @@ Unjudged(r, ep, j) ==
   LET X == Inst(ep, j) IN
   CoreNums(X) /\
   ( \/ (r.stop > 0 /\ ~(j = 1 /\ Fresh(r)) /\ LET v == SensorValue(StopOf(r), X) IN v # SNull /\ StopClass(v, r.thr) = "band")
-    \/ (r.ctrl > 0 /\ \E idx \in 1..Len(Tr.ctrls[r.ctrl]) : "any" \in RuleAllowed(Tr.ctrls[r.ctrl][idx], X, ep, j, r.dt)) )
+    \/ (r.ctrl > 0 /\ \E idx \in 1..Len(Tr.ctrls[r.ctrl]) : "any" \in RuleAllowed(Tr.ctrls[r.ctrl][idx], X, ep, j, r.dt))
+    \* the duty cycle within rounding distance of the dead-zone boundary: the documented torque law jumps there when the
+    \* motor is moving and i0 = 0 (T -> -Tmax w/w0 as D -> 0+, but exactly 0 at D = 0), so which side a rounding error
+    \* of 1e-16 in a proposal falls on is a discrete decision
+    \/ (Ch[1].hasCurrent /\ RLe(RAbs(RSub(RAbs(X.pwm), DeadZone(MotorOf(Ch)))), RMul(Band, RMax(DeadZone(MotorOf(Ch)), "1")))) )
 
 (* ---- one recorded instant ---- *)
 \* P: previous instant or "none"; returns the failing clauses under the hypothesis `held'
